@@ -81,4 +81,65 @@ theorem kvOfList_entries (dflt : Val) (m : List (Str × Val)) (acc : Val.KVs)
       simp only [List.map_cons, h1, kvOfList, sprint_str, cutStr_entry k _ hk0, insert_absent _ _ _ hd0, step, h2]
       simp
 
+theorem splitOn_joinWith (c : Char) (l : List Str) (hne : l ≠ []) (hc : ∀ x ∈ l, ∀ ch ∈ x, ch ≠ c) :
+    splitOn c (joinWith c l) = l := by
+  induction l with
+  | nil => exact absurd rfl hne
+  | cons a r ih =>
+    cases r with
+    | nil => simp [joinWith, splitOn_clean _ _ (hc a (by simp))]
+    | cons b r' =>
+      have := ih (by simp) (fun x hx => hc x (by simp [hx]))
+      simp only [joinWith, splitOn_append _ _ _ (hc a (by simp)), this]
+
+theorem hostsAppend_absent (h : String) (ips : List Str) (acc : List (String × List Str))
+    (hab : h ∉ acc.map Prod.fst) : hostsAppend h ips acc = acc ++ [(h, ips)] := by
+  induction acc with
+  | nil => rfl
+  | cons p r ih =>
+    obtain ⟨h', l⟩ := p
+    simp only [List.map_cons, List.mem_cons, not_or] at hab
+    simp [hostsAppend, hab.1, ih hab.2]
+
+/-- one `host=ip1,ip2` entry of the list form -/
+def hostEntry (e : Str × List Str) : Val := .str (String.ofList (e.1 ++ '=' :: joinWith ',' e.2))
+/-- the same host in the mapping form: `host: [ip1, ip2]` -/
+def hostMapEntry (e : Str × List Str) : String × Val := (String.ofList e.1, .seq (e.2.map fun ip => .str (String.ofList ip)))
+
+theorem hostsOfList_entries (es : List (Str × List Str)) (acc : List (String × List Str))
+    (hk : ∀ e ∈ es, ∀ x ∈ e.1, x ≠ '=')
+    (hips : ∀ e ∈ es, e.2 ≠ [] ∧ ∀ ip ∈ e.2, ∀ ch ∈ ip, ch ≠ ',')
+    (hnd : (es.map Prod.fst).Nodup)
+    (hdis : ∀ e ∈ es, String.ofList e.1 ∉ acc.map Prod.fst) :
+    hostsOfList (es.map hostEntry) acc = some (acc ++ es.map fun e => (String.ofList e.1, e.2)) := by
+  induction es generalizing acc with
+  | nil => simp [hostsOfList]
+  | cons e r ih =>
+    obtain ⟨h, ips⟩ := e
+    have hk0 := hk (h, ips) (by simp)
+    have hi0 := hips (h, ips) (by simp)
+    have hd0 := hdis (h, ips) (by simp)
+    simp only [List.map_cons, List.nodup_cons] at hnd
+    simp only [List.map_cons, hostEntry, hostsOfList, sprint_str, String.toList_ofList, cutAt_append _ _ _ hk0,
+      splitOn_joinWith _ _ hi0.1 hi0.2, hostsAppend_absent _ _ _ hd0]
+    rw [ih _ (fun q hq => hk q (by simp [hq])) (fun q hq => hips q (by simp [hq])) hnd.2]
+    · simp
+    · intro q hq
+      simp only [List.map_append, List.map_cons, List.map_nil, List.mem_append, List.mem_singleton, not_or]
+      refine ⟨hdis q (by simp [hq]), ?_⟩
+      intro heq
+      have := ofList_inj heq
+      apply hnd.1
+      rw [← this]
+      exact List.mem_map_of_mem (f := Prod.fst) hq
+
+theorem hostsOfMap_entries (es : List (Str × List Str)) :
+    hostsOfMap (es.map hostMapEntry) = some (es.map fun e => (String.ofList e.1, e.2)) := by
+  induction es with
+  | nil => rfl
+  | cons e r ih =>
+    obtain ⟨h, ips⟩ := e
+    simp only [List.map_cons, hostMapEntry, hostsOfMap, ih]
+    simp [List.map_map, Function.comp_def, sprint_str]
+
 end CV.Short
